@@ -89,6 +89,18 @@ theorem inst_shape (S : DRing K) (d : Nat) (σ : List (String × E)) (hσ : ∀ 
     · have hd : d = 1 := by simpa using hFS.2
       cases t <;> simp_all [hasShape, LS]
 
+/-- … and instantiating a formula of a recognised shape never fails -/
+theorem inst_shape_total (d : Nat) (σ : List (String × E)) (hσ : ∀ p ∈ σ, LS p.2 = true)
+    (τ : Ty) (F : E) (hF : shapeOK d τ F = true) : ∃ t, inst d σ F = .ok t := by
+  by_cases hm : ∃ r c fs, F = mat r c fs
+  · obtain ⟨r, c, fs, rfl⟩ := hm
+    have hfs : FSList fs = true := by
+      cases τ <;> simp [shapeOK, FS] at hF <;> exact hF.2
+    exact inst_mat_total d σ hσ r c fs hfs
+  · have hFS : FS F = true := by
+      cases τ <;> cases F <;> simp_all [shapeOK, FS]
+    exact inst_total d σ hσ F hFS
+
 /-! ### the classical operators as functions of the components of their arguments -/
 
 def op1sem (S : DRing K) (d : Nat) (lg : Bool) (o : Op1) (r : Nat) (A : Nat → Nat → K)
